@@ -128,6 +128,10 @@ func (f *Func) SliceLoops(root ast.Node) []*ast.RangeStmt {
 // loop: the value variable, or X[key] for the loop's own X and key.
 func LoopElem(info *types.Info, loop *ast.RangeStmt, e ast.Expr) bool {
 	e = ast.Unparen(e)
+	// &xs[i] names the same element
+	if u, ok := e.(*ast.UnaryExpr); ok && u.Op == token.AND {
+		e = ast.Unparen(u.X)
+	}
 	if loop.Value != nil {
 		if o := ObjOf(info, loop.Value); o != nil && ObjOf(info, e) == o {
 			return true
